@@ -108,7 +108,7 @@ func prototypes(s *svcSpec, r *Rng) [][][]byte {
 	switch s.Key {
 	case "ftp":
 		// logged-in sessions issuing path and transfer commands (the grammar of C04 avoids them)
-		login := [][]byte{[]byte("USER anonymous\r\n"), []byte("PASS a@b\r\n")}
+		login := [][]byte{[]byte("USER anonymous\r\n"), []byte("PASS anonymous\r\n")}
 		cmds := []string{"CWD /", "CWD ..", "CWD a", "CDUP", "PWD", "MKD d1", "RMD d1", "DELE f", "RNFR a", "RNTO b", "PASV", "EPSV", "LIST", "NLST", "RETR f", "STOR f", "APPE f", "SIZE f", "MDTM f", "STAT /", "TYPE I", "PORT 10,1,0,10,4,1", "EPRT |1|10.1.0.10|1025|", "REST 5", "AUTH TLS", "PBSZ 0", "PROT P", "FEAT", "SYST", "NOOP", "QUIT", "ALLO 1", "MODE S", "STRU F", "OPTS UTF8 ON", "ABOR", "SITE x", "XCWD a", "XPWD", "XMKD q", "XRMD q", "MLSD", "MLST f", "CONF"}
 		for k := 0; k < 3; k++ {
 			d := append([][]byte{}, login...)
